@@ -173,8 +173,8 @@ def part_a(facts, res):
         if care0 == 0:
             continue
         followed += 1
-        if o.kind == "panic" and any(e[0] == "try_interrupt" for e in effs):
-            continue   # after the message loop: not a control-line matter (C15)
+        if o.kind == "panic" and any(e[0] in ("try_interrupt", "fetch", "exec", "modules", "sync") for e in effs):
+            continue   # after the message loop (whatever the order of the later phases is): not a control-line matter (C15 takes it from the run-loop analysis)
         if o.kind == "panic":
             res.ob(False)
             res.finding("dispatch|panic|%s" % o.info.get("kind"), "processing a control line can panic (%s, line %s)" % (o.info.get("kind"), o.info.get("line")), witness(care0))
@@ -836,19 +836,60 @@ def part_c(facts, res):
         r1 = gg.roots(rep[0]["args"][1]) if rep else set()
         r2 = gg.roots(rep[0]["args"][2]) if rep else set()
         strip_ok = (len(rep) == 1 and ("const", "10") in r1 and ("const", "") in r2) or any(n in names for n in ("trim_end_matches", "strip_suffix", "trim_end"))
-        okk = "read_line" in names and names.count("send") == 1 and strip_ok and "clear" in names and len(rep) <= 1
-        res.ob(okk)
+        resets_named = any(n in names for n in ("clear", "take", "drain", "split_off")) or names.count("new") > 1
+        okk = "read_line" in names and names.count("send") == 1 and strip_ok and resets_named and len(rep) <= 1
+        # calls that neither transform nor consume the text (everything else might strip / rewrite it in a way this rule does not follow)
+        NEUTRAL = ("read_line", "send", "try_send", "clone", "to_string", "to_owned", "to_string", "take", "deref", "deref_mut", "as_str", "as_mut_str", "clear", "new", "unwrap", "expect", "kind", "ne", "eq",
+                   "_eprint", "_print", "new_display", "new_debug", "is_err", "is_ok", "is_empty", "len", "into", "from", "borrow", "as_ref", "drop", "with_capacity", "new_const", "new_v1", "none")
+        other = [n for n, (p_, t_) in zip(names, calls) if n not in NEUTRAL and "fmt::" not in p_ and "Arguments" not in p_ and "Try" not in p_ and "from_residual" not in n]
+        res.ob(okk or bool(other))
         if not okk:
-            if "read_line" in names and names.count("send") != 1:
-                res.finding("plumbing|receive-worker", "the receive worker forwards a line %d times (calls %r)" % (names.count("send"), names))
-            elif "read_line" in names and "clear" not in names and "new" not in names and "take" not in names:
-                res.finding("plumbing|receive-worker", "the receive worker never clears its line buffer: consecutive lines are concatenated (calls %r)" % names)
-            elif "read_line" in names and not strip_ok and not any(n in names for n in ("trim", "lines", "pop", "truncate")):
-                res.finding("plumbing|receive-worker", "the receive worker forwards the line with its terminator (no newline strip; calls %r)" % names)
+            if "read_line" in names and names.count("send") == 0:
+                res.finding("plumbing|receive-worker", "the receive worker never forwards a line (calls %r)" % names)
+            elif "read_line" in names and not strip_ok and not other:
+                res.finding("plumbing|receive-worker", "the receive worker forwards the line with its terminator (nothing between read_line and send can strip the newline; calls %r)" % names)
             elif len(rep) > 1 or (rep and not strip_ok):
                 res.finding("plumbing|receive-worker", "the receive worker rewrites the line beyond stripping the newline (calls %r)" % names)
-            else:
-                res.errors.append("receive worker: call chain %r is not one this rule recognises: not decidable" % names)
+            elif "read_line" not in names or not strip_ok:
+                res.errors.append("receive worker: the way the line is read / stripped (%r) is not one this rule recognises: not decidable" % (other or names))
+            # (duplicates and stale buffers are decided by the path rules below)
+        # path rules over the worker's CFG (flow-sensitive; the name-set rule above cannot see a path that bypasses a call):
+        # between one successful read_line and the next, on EVERY path, (i) the line buffer read_line appends to is reset,
+        # (ii) the line is handed to the channel at most once; (iii) a path that does not hand it on at all is accepted only
+        # when it is taken for an empty line (which the dispatcher ignores anyway), otherwise it is not decidable here
+        cl = list(gg.calls())
+        rl = [(i, t) for i, p, t in cl if p.endswith("read_line")]
+        for i_r, t_r in rl:
+            buf = set(r_ for r_ in gg.roots(t_r["args"][1]) if r_[0] in ("call", "place", "expr"))
+            if not buf:
+                res.errors.append("receive worker: the buffer passed to read_line is not identified: not decidable")
+                continue
+            resets = set()
+            for i, p, t in cl:
+                nm = p.split("::")[-1]
+                if nm in ("clear", "take", "drain", "truncate", "split_off") and t["args"] and (set(gg.roots(t["args"][0])) & buf):
+                    resets.add(i)
+            for r_ in buf:
+                if r_[0] == "call" and r_[1].split("::")[-1] in ("new", "with_capacity", "default") and r_[2] in gg.loops().get(max(gg.loops(), key=lambda h: len(gg.loops()[h])), ()):
+                    resets.add(r_[2])      # the buffer is created afresh inside the loop
+            stale = gg.reaches(i_r, i_r, avoid=resets)
+            res.ob(not stale)
+            if stale:
+                res.finding("plumbing|receive-worker|stale-buffer", "the receive worker can read the next line without resetting its line buffer on some path (read_line appends): "
+                            "the following line arrives glued to the previous text and is not recognised")
+            sends = [i for i, p, t in cl if p.split("::")[-1] in ("send", "try_send") and "Sender" in p]
+            twice = any(gg.reaches(s1, s2, avoid=[i_r]) for s1 in sends for s2 in sends)
+            res.ob(not twice)
+            if twice:
+                res.finding("plumbing|receive-worker|forwarded-twice", "the receive worker can hand one line to the channel more than once before reading the next")
+            if sends and gg.reaches(i_r, i_r, avoid=sends):
+                guards = [p.split("::")[-1] for i, p, t in cl if p.split("::")[-1] in ("is_empty", "len")]
+                if guards:
+                    res.ob(True)
+                    res.inventory["receive_worker_skips"] = "empty lines are not forwarded (%s)" % ",".join(guards)
+                else:
+                    res.errors.append("receive worker: some path reads the next line without forwarding the current one and the condition is not an emptiness test: not decidable")
+        res.inventory["receive_worker_read_sites"] = len(rl)
     else:
         res.errors.append("anchor receive worker: %r" % rw)
 
